@@ -133,11 +133,46 @@ def big_script_units(script):
     return units
 
 
+def bulk_check(script, answer):
+    """scripts with D<n> tokens (n bytes of 0xAB pushed in 32 MiB pieces, several GiB in all): the stream is segmented with
+    every D run shortened to a 9-byte marker; the unit holding a marker is then re-measured with the real run length"""
+    import zlib, re
+    marker = b"\xab" * 9
+    runs = [int(x) for x in re.findall(r"(?:^|,)D(\d+)", script)]
+    reduced = re.sub(r"(^|,)D\d+", lambda m: m.group(1) + "x" + marker.hex(), script)
+    units = big_script_units(reduced)
+    want, k = [], 0
+    block = b"\xab" * (1 << 20)
+    for u in units:
+        j = u.find(marker)
+        if j < 0 or k >= len(runs):
+            want.append("U%d:%08x" % (len(u), zlib.crc32(u)))
+            continue
+        if u.count(marker) != 1 and u.find(marker, j + 9) >= 0:
+            return "oracle: two bulk runs in one unit are not supported"
+        n = runs[k]
+        k += 1
+        c = zlib.crc32(u[:j])
+        left = n
+        while left > 0:
+            m = min(left, len(block))
+            c = zlib.crc32(block[:m], c)
+            left -= m
+        c = zlib.crc32(u[j + 9:], c)
+        want.append("U%d:%08x" % (len(u) - 9 + n, c))
+    toks = answer.split()
+    if toks != want:
+        return "units differ from the segmentation of the multi-GiB stream: got %s want %s" % (toks[:4], want[:4])
+    return None
+
+
 def big_check(case, answer):
     """verdict on an `annexbig` answer against the segmentation of the script's stream (None = as the property says)"""
     import zlib
     p = case.lstrip("!").split()
     mode, script = p[1], p[2]
+    if ",D" in script or script.startswith("D"):
+        return bulk_check(script, answer)
     abandoned = script.endswith(",a")
     if abandoned:
         # the reader is dropped without a reset: what reset would have completed stays an incomplete view at best
@@ -201,4 +236,14 @@ def big_scripts(rng, tier):
         out.append(["s", "z2", "o", "d%d" % n, "r"])
         out.append(["s", "d2", "s", "s", "d%d" % n, "z3", "s", "d1", "r"])
         out.append(["z3", "o", "z2", "o", "d%d" % n, "|", "d1", "r"])
+    # 2^32 bytes through one reader (D<n> = n bytes pushed in 32 MiB pieces, ~13 s per case and build): a unit open while
+    # the running total passes 2^32; exactly 2^32 bytes between two resets with a unit open at the reset; thorough: also with
+    # zeros held back at the reset and 2^32 +- 1
+    G = 1 << 32
+    out.append(["s", "d100", "D%d" % (G + 100), "d50", "r", "s", "d3", "r"])
+    out.append(["z7", "s", "d9", "r", "s", "d5", "D%d" % (G - 8), "r", "s", "d4", "r"])
+    if tier != "quick":
+        out.append(["s", "d5", "D%d" % (G - 10), "z2", "r", "o", "d6", "s", "d2", "r"])
+        out.append(["s", "d5", "D%d" % (G - 7), "r", "s", "d4", "r"])
+        out.append(["s", "d5", "D%d" % (G - 9), "r", "d6", "s", "d4", "r"])
     return [",".join(t) for t in out]
